@@ -2,7 +2,9 @@ package wire
 
 import (
 	"bytes"
+	crand "crypto/rand"
 	"errors"
+	"io"
 	"sync"
 
 	"golang.org/x/crypto/ssh"
@@ -18,6 +20,8 @@ type extRing struct {
 	mu     sync.Mutex
 	ext    []extIdent
 	locked bool
+	// lenient: a certificate added with a private key it was not issued for is accepted (see mismatched)
+	lenient bool
 }
 
 type extIdent struct {
@@ -27,8 +31,31 @@ type extIdent struct {
 
 func newExtRing() *extRing { return &extRing{ExtendedAgent: agent.NewKeyring().(agent.ExtendedAgent)} }
 
+// mismatched holds a certificate together with a private key it was not issued for, the way an agent that does not
+// cross-check the two (OpenSSH's ssh-agent) ends up holding it: listed under the certificate, signing with the key.
+type mismatched struct {
+	cert *ssh.Certificate
+	key  ssh.Signer
+}
+
+func (m mismatched) PublicKey() ssh.PublicKey { return m.cert }
+func (m mismatched) Sign(rand io.Reader, data []byte) (*ssh.Signature, error) {
+	return m.key.Sign(crand.Reader, data)
+}
+
 func (r *extRing) Add(k agent.AddedKey) error {
 	sg, ok := k.PrivateKey.(ssh.Signer)
+	if !ok && r.lenient && k.Certificate != nil {
+		if ks, err := ssh.NewSignerFromKey(k.PrivateKey); err == nil && !bytes.Equal(ks.PublicKey().Marshal(), k.Certificate.Key.Marshal()) {
+			r.mu.Lock()
+			defer r.mu.Unlock()
+			if r.locked {
+				return errors.New("agent: locked")
+			}
+			r.ext = append(r.ext, extIdent{signer: mismatched{k.Certificate, ks}, comment: k.Comment})
+			return nil
+		}
+	}
 	if !ok {
 		return r.ExtendedAgent.Add(k)
 	}
